@@ -185,7 +185,7 @@ UNIT = Unit(
                } }""")]),
     ],
     findings=[
-        Finding("F-C08-tips", S + "::SealedState::from_block", ("C08",), [], expect_clause=["restart", "proof"],
+        Finding("F-C08-tips", S + "::SealedState::from_block", ("C08",), [], expect_clause=["restart", "proof"], must_hold=["fields", "sealed"],
                 what="from_block resets pending tips to 0 while next_unsealed carries them over: a state sealed without a proposer action after fee-overpaying transactions is rebuilt with different tips"),
     ],
 )
